@@ -101,7 +101,19 @@ CASES = [
     ctor_case("trunc-wd", ["week_of_year", "day_of_week"],
               "1 <= week_of_year and week_of_year <= 53 and 1 <= day_of_week and day_of_week <= 7",
               truncated=True),
-    ctor_case("trunc-hms", HMS, T(), truncated=True),
+    ctor_case("trunc-hms", HMS, T(), truncated=True,
+              ensures=["self._time_zone._unknown is True and self._truncated is True"
+                       " and self._year is None and self._month_of_year is None"]),
+    ctor_case("trunc-hms-tz", HMS + TZ, "%s and %s" % (T(), Z), truncated=True,
+              ensures=["self._time_zone._unknown is False"
+                       " and self._time_zone._hours == time_zone_hour"
+                       " and self._time_zone._minutes == time_zone_minute"]),
+    ctor_case("trunc-h-tzh", ["hour_of_day", "time_zone_hour"],
+              "%s and zone_fields_ok(time_zone_hour, None)" % T(m="None", s="None"),
+              truncated=True,
+              ensures=["self._time_zone._unknown is False"
+                       " and self._time_zone._hours == time_zone_hour"
+                       " and self._time_zone._minutes == 0"]),
 ]
 
 contract("data:TimePoint.__init__", use_at_calls=False, opaque=["dby"], cases=CASES,
@@ -140,4 +152,5 @@ contract("data:_bounds_checker", use_at_calls=False,
                 Case("upper", bc_case("upper"),
                      raises=[("BadInputError", "value < min_val or value >= upper_val")]),
                 Case("none", lambda E, st: {"value": None, "name": "x", "min_val": 1,
-                                            "max_val": 2}, raises=[])])
+                                            "max_val": 2}, raises=[],
+                     ensures=["result is None"])])
